@@ -532,7 +532,7 @@ def run_case(case, workdir=None, backend_factory=None, catch_ki=False, around_ru
     try:
         with watchdog(case.get('watchdog_s', 45)):
             with (around_run if around_run is not None else contextlib.nullcontext()):
-                res = lab.run_tasks(built.req, bust_cache=case['bust'], disable_progress=True, disable_top=not case.get('top'))
+                res = lab.run_tasks(built.req, bust_cache=case['bust'], disable_progress=not case.get('progress'), disable_top=not case.get('top'))
     except HarnessTimeout as e:
         obs['outcome'] = 'hang'
         obs['exc'] = repr(e)
